@@ -139,7 +139,12 @@ def _do_step(rig, kind, m, s, tag):
         return sx.ite(st == 0, 127, st), s
     if kind == "slave_bootup":
         # the local application resets its own node: boot-up message, master reports PRE-OPERATIONAL
-        rig.slave.state = "INITIALISING"
+        # every way of saying it: the three state names that mean a reset, and the two command specifiers
+        form = sx.choice(5, "reset_form")
+        if form < 3:
+            rig.slave.state = ("INITIALISING", "RESET", "RESET COMMUNICATION")[form]
+        else:
+            rig.slave.send_command((129, 130)[form - 3])
         new = rig.frames[n0:]
         ok = len(new) == 1 and new[0][0] == "b" and new[0][1] == 0x700 + NODE and \
             bytes(_asbytes(new[0][2])) == b"\x00"
@@ -190,10 +195,14 @@ def wait_heartbeat(deliver, prior=0):
     b = sx.fresh_byte("hb")
     sx.assume(sx.any_([(b & 0x7F) == x for x in STATES]))
 
+    left = [1 if deliver else 0]
+
     def hook(kind, obj):
-        if kind == "condition" and deliver:
+        if kind == "condition" and left[0]:
+            left[0] -= 1                 # one message, during the first wait
             rig.inject(0x700 + NODE, sx.mkbytes([b]))
     sx.env().delivery_hook = hook
+    t0 = sx.env().now
     try:
         st = rig.master.wait_for_heartbeat(timeout=1)
     except NmtError:
@@ -202,6 +211,8 @@ def wait_heartbeat(deliver, prior=0):
         sx.reach("wait-hb-timeout")
         return
     sx.observe("state", st)
+    sx.prove(sx.env().now - t0 < 0.5, "the wait did not return on the message but only at its time-out",
+             "C11/wait/heartbeat-late-return")
     sx.prove(bool(deliver), "wait returned without a heartbeat", "C11/wait/heartbeat-spurious")
     x = b & 0x7F
     sx.prove(ref_name_is(st, sx.ite(x == 0, 127, x)), "wait returns the reported state", "C11/wait/heartbeat-state")
